@@ -347,9 +347,13 @@ func runScenario(d *driver, kind string) {
 			d.load(x, -1)
 			d.setClock(d.lastTs)
 		}
-		// missing / rolled back objects
+		// missing / rolled back objects (not in -real mode: tampering is done on the simulated store only)
 		d.w.mu.Lock()
-		switch d.r.Intn(3) {
+		tamperKind := d.r.Intn(3)
+		if realBackends {
+			tamperKind = 2
+		}
+		switch tamperKind {
 		case 0:
 			delete(d.w.objects, "checkpoint")
 			d.w.mon.tampered = true
@@ -584,6 +588,25 @@ func runScenario(d *driver, kind string) {
 			d.sync()
 			d.round(li)
 			d.round(li)
+		}
+	case "bigcrash":
+		// crash after the compare-and-swap of a round over a tree whose data tile is well above 16 KiB:
+		// recovery re-uploads immutable tiles that already exist (identical bytes)
+		li := d.boot(0)
+		d.submitMany(li, 200+d.r.Intn(50))
+		d.round(li)
+		d.round(li)
+		for rep := 0; rep < 2 && li != nil; rep++ {
+			d.submitSome(li, 1+d.r.Intn(3))
+			d.crashWithin(li, 3+d.r.Intn(5))
+			d.round(li)
+			if !d.alive(li) {
+				li = d.restart(li, true)
+			}
+			if li != nil && d.alive(li) {
+				d.round(li)
+				d.round(li)
+			}
 		}
 	case "storm":
 		d.storm()
